@@ -601,6 +601,9 @@ pub enum C09Op {
 pub struct C09Case {
     pub tl: TlDesc,
     pub ops: Vec<C09Op>,
+    /// run the script on `MergedTimeline::of([timeline])` wrappers (and their clones) instead
+    #[serde(default)]
+    pub wrap: bool,
 }
 
 pub fn c09_strategy() -> impl Strategy<Value = C09Case> {
@@ -610,29 +613,53 @@ pub fn c09_strategy() -> impl Strategy<Value = C09Case> {
         2 => (any::<u16>(), vals_strategy()).prop_map(|(sel, v)| C09Op::StartWith { sel, v }),
         1 => (any::<u16>(), timespec_strategy()).prop_map(|(sel, ts)| C09Op::Twice { sel, ts }),
     ];
-    (tl_strategy(), prop::collection::vec(op, 1..=30)).prop_map(|(tl, ops)| C09Case { tl, ops })
+    (tl_strategy(), prop::collection::vec(op, 1..=30), prop::bool::weighted(0.35)).prop_map(|(tl, ops, wrap)| C09Case { tl, ops, wrap })
 }
 
 pub const C09_LABELS: [&str; 6] = ["backwards_step", "clone_used_after_source_mutated", "two_start_with_on_one", "garbage_prefill", "twice", "merged_wrapper"];
 
 pub fn c09_judge(c: &C09Case, obs: &mut Obs) -> Result<(), String> {
+    if c.wrap {
+        obs.label(5);
+        c09_run(c, obs, &|| MergedTimeline::of([c.tl.build()]))
+    } else {
+        c09_run(c, obs, &|| c.tl.build())?;
+        // the same through a MergedTimeline wrapper at the end: a clone gives identical results
+        let base = c.tl.build();
+        let m = MergedTimeline::of([base.clone()]);
+        let m2 = m.clone();
+        for ts in [TimeSpec::Frac { k: 0, num: 1, den: 2 }, TimeSpec::Far(3)] {
+            let t = ts.resolve(&c.tl);
+            let (mut x, mut y, mut z) = (sentinel(5), sentinel(5), sentinel(5));
+            m.update(&mut x, t);
+            m2.update(&mut y, t);
+            base.update(&mut z, t);
+            if x.bits() != y.bits() || x.bits() != z.bits() {
+                return Err(format!("merged wrapper/clone differs at t={t:?}: {:?} / {:?} / {:?}", x, y, z));
+            }
+        }
+        Ok(())
+    }
+}
+
+fn c09_run<T: Timeline<Target = P> + Clone>(c: &C09Case, obs: &mut Obs, build: &dyn Fn() -> T) -> Result<(), String> {
     let back = c.tl.uses_back();
     // live timelines, each with the start value a fresh twin needs (latest start_with only)
-    struct Live {
-        tl: PTimeline,
+    struct Live<T> {
+        tl: T,
         start: Option<Vals>,
         n_start: u32,
         last_t: Option<f32>,
         src_mutated_after_clone: bool,
         parent: Option<usize>,
     }
-    let mut live: Vec<Live> = vec![Live { tl: c.tl.build(), start: None, n_start: 0, last_t: None, src_mutated_after_clone: false, parent: None }];
+    let mut live: Vec<Live<T>> = vec![Live { tl: build(), start: None, n_start: 0, last_t: None, src_mutated_after_clone: false, parent: None }];
     let meta0 = {
         let t = &live[0].tl;
         (t.delay().to_bits(), t.cycle_duration().map(|x| x.to_bits()), t.duration().to_bits(), t.repeat())
     };
     let twin = |start: &Option<Vals>| {
-        let mut t = c.tl.build();
+        let mut t = build();
         if let Some(v) = start {
             t.start_with(&P::from_vals(v));
         }
@@ -714,20 +741,6 @@ pub fn c09_judge(c: &C09Case, obs: &mut Obs) -> Result<(), String> {
                 return Err(format!("op {n}: metadata of timeline #{k} changed: {:?} -> {:?}", meta0, m));
             }
         }
-    }
-    // the same through a MergedTimeline wrapper at the end: a clone gives identical results
-    let m = MergedTimeline::of([live[0].tl.clone()]);
-    let m2 = m.clone();
-    for ts in [TimeSpec::Frac { k: 0, num: 1, den: 2 }, TimeSpec::Far(3)] {
-        let t = ts.resolve(&c.tl);
-        let (mut x, mut y, mut z) = (sentinel(5), sentinel(5), sentinel(5));
-        m.update(&mut x, t);
-        m2.update(&mut y, t);
-        live[0].tl.update(&mut z, t);
-        if x.bits() != y.bits() || x.bits() != z.bits() {
-            return Err(format!("merged wrapper/clone differs at t={t:?}: {:?} / {:?} / {:?}", x, y, z));
-        }
-        obs.label(5);
     }
     obs.nontrivial = obs.labels & 0b111 == 0b111;
     Ok(())
